@@ -206,6 +206,24 @@ Section Walkers.
   Definition wd_skip_current_dir (s : wd) : wd :=
     match wd_stack s with [] => s | _ => wd_pop s end.
 
+  (* handle_entry, second half: descend into a directory (push) or not *)
+  Definition wd_enter (s : wd) (e : dent) : wres * wd :=
+    let is_normal_dir := negb (de_is_symlink e) && de_is_dir e in
+    if is_normal_dir then
+      if same_file_system && Nat.ltb 0 (de_depth e) then
+        match dev_of fs (de_ino e), wd_root_dev s with
+        | Some d, Some rd => if (d =? rd)%N then (WOk e, wd_push s e) else (WOk e, s)
+        | _, _ => (WOk e, wd_push s e)
+        end
+      else (WOk e, wd_push s e)
+    else if Nat.eqb (de_depth e) 0 && de_is_symlink e then
+      (* a root symlink is followed even without follow_links; the entry stays a symlink *)
+      match resolve fs (de_ino e) with
+      | None => (WIo (de_path e) 0, s)
+      | Some t => if ftype_eqb (lstat_type fs t) TyDir then (WOk e, wd_push s e) else (WOk e, s)
+      end
+    else (WOk e, s).
+
   (* handle_entry; depth = self.depth = stack length when the entry was read *)
   Definition wd_handle_entry (s : wd) (e0 : dent) : wres * wd :=
     let followed :=
@@ -219,22 +237,7 @@ Section Walkers.
       else inr e0 in
     match followed with
     | inl err => (err, s)
-    | inr e =>
-      let is_normal_dir := negb (de_is_symlink e) && de_is_dir e in
-      if is_normal_dir then
-        if same_file_system && Nat.ltb 0 (de_depth e) then
-          match dev_of fs (de_ino e), wd_root_dev s with
-          | Some d, Some rd => if (d =? rd)%N then (WOk e, wd_push s e) else (WOk e, s)
-          | _, _ => (WOk e, wd_push s e)
-          end
-        else (WOk e, wd_push s e)
-      else if Nat.eqb (de_depth e) 0 && de_is_symlink e then
-        (* a root symlink is followed even without follow_links; the entry stays a symlink *)
-        match resolve fs (de_ino e) with
-        | None => (WIo (de_path e) 0, s)
-        | Some t => if ftype_eqb (lstat_type fs t) TyDir then (WOk e, wd_push s e) else (WOk e, s)
-        end
-      else (WOk e, s)
+    | inr e => wd_enter s e
     end.
 
   Definition clear_start (s : wd) (rd : option N) : wd :=
